@@ -227,7 +227,12 @@ func (cn *c14Conn) nframes() int {
 }
 
 func newC14Run(c *core.Ctx, conns []*c14Conn) *c14Run {
-	r := &c14Run{c: c, l: newCanaryLabK(canaryCfg{arpFor: allClients()}), conns: conns, srvISN: map[string]uint32{}, haveSyn: map[string]bool{}, step: map[string]int{},
+	return newC14RunOn(c, newCanaryLabK(canaryCfg{arpFor: allClients()}), conns)
+}
+
+// newC14RunOn plays further connections against a listener that has already served others.
+func newC14RunOn(c *core.Ctx, l *canaryLab, conns []*c14Conn) *c14Run {
+	r := &c14Run{c: c, l: l, conns: conns, srvISN: map[string]uint32{}, haveSyn: map[string]bool{}, step: map[string]int{},
 		off: map[string]int{}, recvd: map[string]uint32{}, finSent: map[string]bool{}, trace: map[string][]string{}, firstPSH: map[string]int{}, srvNext: map[string]uint32{}}
 	return r
 }
@@ -384,6 +389,38 @@ func runC14(c *core.Ctx) {
 			})
 		}
 	}
+
+	// ---- the same address and port pair again after an earlier connection ended (its entry may still
+	// be in the state table): the new SYN opens a new connection like any other
+	c.Case("reconnect/same port pair", func() {
+		for _, tail1 := range []string{"", "none", "rst"} {
+			for _, dp := range []uint16{8081, 80, 6379} {
+				for _, gap := range []time.Duration{0, 70 * time.Second} {
+					a := &c14Conn{ip: clientIP(6), sport: 5000, dport: dp, isn: 1000, stream: c14Stream(dp, 70), segs: []int{70}, tail: tail1}
+					r1 := newC14Run(c, []*c14Conn{a})
+					for i := 0; i < a.nframes(); i++ {
+						r1.next(0)
+					}
+					lab.Advance(61 * time.Second)
+					r1.drain("the socket read timeout")
+					lab.Advance(6 * time.Second)
+					r1.checkEvents()
+					r1.report(fmt.Sprintf("first connection dport=%d tail=%q", dp, tail1))
+					if gap > 0 {
+						lab.Advance(gap)
+					}
+					b := &c14Conn{ip: clientIP(6), sport: 5000, dport: dp, isn: 900000, stream: c14Stream(dp, 70), segs: []int{30, 40}, pshAll: true}
+					r2 := newC14RunOn(c, r1.l, []*c14Conn{b})
+					for i := 0; i < b.nframes(); i++ {
+						r2.next(0)
+					}
+					r2.finish()
+					r2.report(fmt.Sprintf("second connection on the same address and port pair (dport=%d, first ended with tail=%q, %v later)", dp, tail1, gap))
+					c.Outcome("reconnect", fmt.Sprint(dp, tail1, gap), strings.Join(r2.trace[b.id()], ";"))
+				}
+			}
+		}
+	})
 
 	// ---- simultaneous connections: all frame interleavings; each connection's frames = its solo frames
 	type kset struct {
